@@ -80,7 +80,7 @@ from core import impl as I
 from core.common import b2f, f2b, close
 
 ID = "C05"
-LEAN_MODULES = ["AcnProofs.C05"]
+LEAN_MODULES = ["AcnProofs.C05", "AcnProofs.C05Resume"]
 TIE_MODULES = ["AcnProofs.Lemmas.CodeTieSim"]
 DRIVER = "drv_C05"
 REQUIRED_THEOREMS = [
@@ -95,12 +95,17 @@ REQUIRED_THEOREMS = [
     "Acn.C05.simI_invoked_core", "Acn.C05.views_faithful_ignored", "Acn.C05.isolation_run_ignored",
     "Acn.C05.infra_at_true", "Acn.C05.infra_at_static", "Acn.C05.infra_at_before", "Acn.C05.infra_at_congr",
     "Acn.C05.infra_at_between", "Acn.C05.infra_at_relimit_last",
+    # interrupted / saved / resumed runs, step() prefixes (AcnProofs/C05.lean, AcnProofs/C05Resume.lean)
+    "Acn.C05.resume_invoked_record", "Acn.C05.resume_invoked_iff", "Acn.C05.step_pass_contract", "Acn.C05.step_loop_test",
+    "Acn.C05.step_exactly_one_period", "Acn.C05.step_then_run_invoked",
+    "Acn.C05.resume_sim_is_core", "Acn.C05.resume_invoked_sim", "Acn.C05.json_resume_invoked",
 ]
 BUDGET = {"quick": 350, "thorough": 4000, "search": 1200}
 TRUSTED = ["copy.deepcopy / numpy array copy semantics (the isolation half is validated by the vandalising "
            "scheduler, not proved: a pure model cannot exhibit aliasing)",
            "CPython heapq contract (a <-minimal entry is popped); dict insertion order",
-           "the recording wrapper reads ground truth from private attributes of Simulator / ChargingNetwork / EVSE / EV"]
+           "the recording wrapper reads ground truth from private attributes of Simulator / ChargingNetwork / EVSE / EV",
+           "json / pydoc.locate as used by to_json / from_json (the harness classes JGuardNet / MarkerEvent are located by module path)"]
 ASSUMPTIONS = ["trigger theorems: none on the configuration (any sessions, timestamps, schedulers, failing or not); the "
                "closed form `event at t` needs Valid (distinct ids, registered stations, 0<=arrival<departure, "
                "non-overlapping per station, recompute timestamps >= 0)",
@@ -120,7 +125,25 @@ ASSUMPTIONS = ["trigger theorems: none on the configuration (any sessions, times
                "the trajectory does not depend on the constraints (an infeasible schedule is only warned about), so it is compared as "
                "before; the oracle's ground truth is the case's own history as far as the HARNESS had applied it (its own log), replayed "
                "in plain Python and on a fresh ChargingNetwork; stations are not registered / unregistered mid-run (the Simulator's "
-               "matrices have one row per station of the construction) and Simulator.update_scheduler is not exercised"]
+               "matrices have one row per station of the construction); Simulator.update_scheduler is exercised with the SAME "
+               "algorithm object only (after from_json)",
+               "interrupted / resumed runs: the interruption is a scheduler exception raised inside schedule() (after the recording "
+               "hook has read the view), each listed period once; resumed by run() on the same object or by to_json -> from_json -> "
+               "update_scheduler(same algorithm object) -> run(), with `signals` handed over by the harness (not JSON-serialisable, "
+               "documented); the model (`Sim.runResume`) treats the JSON round trip as the identity on the state (C09: decode_encode, "
+               "crash_json_resume_eq; theorem json_resume_invoked) and covers the plain queue and one stage — interrupted runs with "
+               "ignored-type events or stages are judged by the oracle (reference on the timestamps + uninterrupted twin run) alone",
+               "NOT judged (observation reported to the maintainer): run() aborted by the scheduler in a period in which the LAST queued "
+               "event — of a type the simulator ignores, alone in its period — had just been popped and the invocation was due to "
+               "max_recompute only: the queue is empty and `_resolve` is false, so the second run() returns at once and that period is "
+               "never simulated (the F7 repair keeps the loop alive through `_resolve`, which such an event does not set)",
+               "step() prefixes: the contract is the REPAIRED step() (F17): one pass always, then on to the next period in which a "
+               "recompute is due; step() applies the events of period t AFTER the trip of period t-1, so an event with timestamp 0 is "
+               "processed late, at iteration 1 (SimStep.lean; not part of any property): prefixes over such scenarios, and prefixes "
+               "combined with ignored-type events or stages, are outside the oracle's closed form (model + same-moment ground truth "
+               "only); the theorems `step_then_run_invoked` carry the corresponding hypothesis `NoOverdue`",
+               "vandal = \"methods\": only state-changing METHODS of the active_evs copies and of their batteries are called (no "
+               "attribute assignment); the default vandal does both"]
 RULE = ("simcase scenario (1-6 stations, 0-25 sessions, back-to-back reuse, simultaneous events) x max_recompute in "
         "{None,1,2,3,7,(0)} x 0-4 extra RecomputeEvents (also on event periods and after the last departure) x 0-3 extra "
         "constraints (subsets of stations, signed / fractional coefficients, default / duplicate names); scripted "
@@ -149,6 +172,16 @@ RULE = ("simcase scenario (1-6 stations, 0-25 sessions, back-to-back reuse, simu
         "{None,1,2,3} x a cycling recompute-event set (5728 cases; clean twin for every 8th; every 3rd with a cycling set of "
         "ignored-type events, every 5th with the Interface asked before run(), every 4th with 1-4 edits between invocations: a limit-only "
         "update of the last constraint + a cycling second kind); "
+        "x INTERRUPTED / RESUMED in 8 of 25 cases (1-3 raising periods: 35% an event period, 25% a timer-only period, 10% period 0, "
+        "15% the last invocation period, rest anywhere = may never fire; resumed in place or through to_json / from_json / "
+        "update_scheduler, half each; combined with ignored-type events, stages, edits, real algorithms; an uninterrupted twin run "
+        "of every interrupted case) + 57 corpus cases (the Lean example x max_recompute None/1/2/3 x raising in an event / timer / "
+        "quiet / last period, in period 0 before anything was scheduled, in two or three periods x in place / JSON); "
+        "x step() PREFIX in 4 of 25 cases (1-5 calls with generated schedules, half with a JSON round trip before run(); all "
+        "timestamps moved to >= 1 in 85%; one residue combined with an interruption of the run() that follows) + 24 corpus cases; "
+        "x vandal restricted to state-changing METHODS of the active_evs copies and their batteries in 1 of 3 cases; "
+        "thorough: every 7th exhaustive layout interrupted (cycling periods, alternately in place / JSON), every 11th with a step() "
+        "prefix of 1-3 calls; "
         "non-trivial = >=3 invocations, at least one triggered by max_recompute alone or at least one period without "
         "invocation, and >=1 view with an active session; distinct by hash of the case")
 
